@@ -374,6 +374,23 @@ func runParserHistory(h reuseHist, inputs []string) reuseOut {
 			}
 			p = q
 			boundary = true
+		case op.Op == "putget_other":
+			// another holder returns ITS instance (configured, used with positions, after a failing parse) too; the pool then
+			// hands out two instances: continue with the second one obtained (one of them has the other holder's past)
+			o := parser.NewParser(parser.WithStrictMode(), parser.WithDialect("mysql"))
+			parserCall(o, reuseOp{Op: "parsepos"}, "SELECT a\n\n\nFROM t WHERE")
+			parser.PutParser(p)
+			parser.PutParser(o)
+			q1 := parser.GetParser()
+			q2 := parser.GetParser()
+			if d := diffFields(names, snapshot(q1), freshSnap); len(d) > 0 && len(out.StateFail) < 4 {
+				out.StateFail = append(out.StateFail, fmt.Sprintf("after op %d (%s): %s", step, op.Op, strings.Join(d, "; ")))
+			}
+			if q2 != p {
+				out.PoolOther++
+			}
+			p = q2
+			boundary = true
 		default:
 			out.Panic = "unknown op " + op.Op
 			return out
@@ -523,6 +540,22 @@ func runTokenizerHistory(h reuseHist, inputs []string) reuseOut {
 				out.PoolOther++
 			}
 			t = q
+			boundary = true
+		case op.Op == "putget_other":
+			o, _ := tokenizer.NewWithDialect(keywords.DialectMySQL)
+			o.SetLogger(slog.New(slog.NewTextHandler(nullWriter{}, nil)))
+			_, _ = o.Tokenize([]byte("-- c\n\nSELECT a /* b */\nFROM t"))
+			tokenizer.PutTokenizer(t)
+			tokenizer.PutTokenizer(o)
+			q1 := tokenizer.GetTokenizer()
+			q2 := tokenizer.GetTokenizer()
+			if d := diffFields(names, snapshot(q1), freshSnap); len(d) > 0 && len(out.StateFail) < 4 {
+				out.StateFail = append(out.StateFail, fmt.Sprintf("after op %d (%s): %s", step, op.Op, strings.Join(d, "; ")))
+			}
+			if q2 != t {
+				out.PoolOther++
+			}
+			t = q2
 			boundary = true
 		default:
 			out.Panic = "unknown op " + op.Op
